@@ -39,6 +39,24 @@ fn vx_witness_ideal_gas_energy() {
                 n_bad += 1;
                 if n_bad <= 6 { println!("WITNESS ideal-gas Helmholtz energy (Joback, T={t} K, n={n:?} mol in {vol} m3): A_ig/RT = {got} mol, sum_i N_i (ln Lambda_i^3 + ln rho_i - 1) over the present components = {want} mol"); }
             }
+            // the first derivatives of that sum, through the state's own dispatcher: mu_i^ig / RT = ln Lambda_i^3 + ln rho_i for
+            // every PRESENT component (its OWN partial density: the ideal-mixing term), p^ig V / RT = N
+            let mu = s.chemical_potential(Contributions::IdealGas);
+            for i in (0..3).filter(|&i| n[i] > 0.0) {
+                let got_mu = (mu.get(i) / (RGAS * t * KELVIN)).into_value();
+                let want_mu = lam[i] + rho[i].ln();
+                n_ok += 1;
+                if !((got_mu - want_mu).abs() <= 1e-9 * want_mu.abs().max(1.0)) {
+                    n_bad += 1;
+                    if n_bad <= 6 { println!("WITNESS ideal-gas chemical potential of component {i} (Joback, T={t} K, n={n:?} mol in {vol} m3): mu_ig/RT = {got_mu}, ln Lambda^3 + ln rho_i = {want_mu} (x_i = {})", n[i] / (n[0] + n[1] + n[2])); }
+                }
+            }
+            let pv = (s.pressure(Contributions::IdealGas) * v / (RGAS * t * KELVIN * MOL)).into_value();
+            n_ok += 1;
+            if !((pv - (n[0] + n[1] + n[2])).abs() <= 1e-10 * (n[0] + n[1] + n[2])) {
+                n_bad += 1;
+                if n_bad <= 6 { println!("WITNESS ideal-gas pressure (Joback, T={t} K, n={n:?} mol in {vol} m3): p V / RT = {pv} mol"); }
+            }
             // the sub-model of the present components at the same partial densities
             let present: Vec<usize> = (0..3).filter(|&i| n[i] > 0.0).collect();
             if present.len() < 3 {
